@@ -136,7 +136,7 @@ Section Auth.
 Variable dbg : bool.
 Variable hp hpo : list N -> result host.
 Variable hd : host -> list N.
-Hypothesis HOK : HostOK hp hpo hd.
+Hypothesis HOK : HostRT hp hpo hd.
 Hypothesis HAb : host_above hp hpo hd.
 
 Definition auth_front (sch : list N) (ui : uinfo) (h : host) (pt : option N) : list N :=
